@@ -55,6 +55,24 @@ def cmp(chk, key, what, got, want, detail, rel=None):
     return True
 
 
+def long_batch(chk, st, key, nv, n, p_exact, amp, det):
+    """Batches are lists of samples, not subsets of the basis: more rows than basis states, repeated rows,
+    arbitrary order.  Each row's value is that row's value."""
+    D = 2 ** nv
+    r = random.Random(n)
+    idx = [r.randrange(D) for _ in range(D + 1 + n % (2 * D + 3))]
+    vb = lattice.space(nv)[idx]
+    prob, am, psi = st.probability(vb), st.amplitude(vb), st.psi(vb)
+    ok = True
+    for j in (0, len(idx) // 2, len(idx) - 1, r.randrange(len(idx))):
+        d = dict(det, state=idx[j], row=j, rows=len(idx))
+        ok &= cmp(chk, key, "probability[long-batch]", prob[j].item(), p_exact[idx[j]], d)
+        ok &= cmp(chk, key, "amplitude[long-batch]", am[j].item(), amp[idx[j]], d)
+        ok &= cmp(chk, key, "born[long-batch]", psi[0, j].item() ** 2 + psi[1, j].item() ** 2, terms.mpf(prob[j].item()), d,
+                  rel=1e-12)
+    return ok
+
+
 def replay_point(chk, e, n):
     nv, nh, B = e["nv"], e["nh"], e["B"]
     # torch's softplus returns x for x > 20 (threshold), i.e. drops log1p(exp(-x)) <= 2.07e-9 per hidden
@@ -97,6 +115,7 @@ def replay_point(chk, e, n):
     ok &= cmp(chk, key, "psi[1-D]", v1[0].item(), amp[k1], dict(det, state=k1))
     if tuple(v1.shape) != (2,) and tuple(v1.shape) != (2, 1):
         chk.violation(key + ":psi[1-D]-shape", dict(det, shape=list(v1.shape)))
+    ok &= long_batch(chk, pos, key, nv, n, p_exact, amp, det)
     # ---- complex wavefunction
     cx = lattice.complex_state(pt, via_module=(n % 5 == 0))
     key = "complex"
@@ -130,6 +149,7 @@ def replay_point(chk, e, n):
         if abs(mpmath.mpf(v1[0].item()) - w1.real) > REL * abs(w1) or abs(mpmath.mpf(v1[1].item()) - w1.imag) > REL * abs(w1):
             chk.violation(key + ":psi[1-D]", dict(det, state=k1))
             ok = False
+    ok &= long_batch(chk, cx, key, nv, n, p_exact, amp, det)
     # the modulus depends on the amplitude network only: change mu, |psi| must be bit-identical
     mod_before = cx.amplitude(sp).clone()
     abs_before = (cx.psi(sp) ** 2).sum(0)
